@@ -214,7 +214,7 @@ pub fn load(dump: &str, fancy: bool) -> std::result::Result<Tab, String> {
                 } else if let Some(s) = f[5].strip_prefix("S:") {
                     Rec::Str(unhex(s))
                 } else if let Some(r) = f[5].strip_prefix("R:") {
-                    let src = format!("^{}", unhex(r));
+                    let src = format!("^(?:{})", unhex(r));
                     if fancy {
                         Rec::Fancy(
                             fancy_regex::Regex::new(&src).map_err(|e| format!("regex: {e}"))?,
